@@ -1,4 +1,5 @@
 import CardVerif.Props.C08
+import CardVerif.Props.C08b
 #print axioms CardVerif.C08.allMelds_exact
 #print axioms CardVerif.C08.split_legal
 #print axioms CardVerif.C08.split_total
@@ -6,3 +7,11 @@ import CardVerif.Props.C08
 #print axioms CardVerif.C08.candidates_sound
 #print axioms CardVerif.C08.candidates_complete
 #print axioms CardVerif.C08.candidates_stop_on_gin
+#print axioms CardVerif.C08.SameArrangement.refl
+#print axioms CardVerif.C08.SameArrangement.trans
+#print axioms CardVerif.C08.SameArrangement.symm
+#print axioms CardVerif.C08.SameArrangement.symm_of_arrangement
+#print axioms CardVerif.C08.candidates_once
+#print axioms CardVerif.C08.candidates_nodup
+#print axioms CardVerif.C08.candidates_stop_no_gin
+#print axioms CardVerif.C08.candidates_exact
